@@ -162,23 +162,27 @@ Proof.
   rewrite (apply_tx_only s c p Hs). apply IH. exact Hr.
 Qed.
 
+(* whatever fails — any statement, any kind of error, once or from there on *)
 Lemma exec_tx_only_any sc : Forall tx_only sc -> forall f c p,
   exec (sc ++ [s_commit]) f false c p = (c, false) \/
   exec (sc ++ [s_commit]) f false c p = (fold_left tx_eff sc p, true).
 Proof.
   induction sc as [|s r IH]; intros H f c p.
-  - destruct f as [[|n]|]; simpl; auto.
+  - destruct f as [[[|n] k o]|]; simpl; auto.
+    unfold absorbed. simpl. rewrite andb_false_r. auto.
   - inversion H as [|x l Hs Hr]; subst.
-    destruct f as [[|n]|]; simpl.
-    + destruct Hs as [Hu _]. rewrite Hu. left. reflexivity.
+    destruct f as [[[|n] k o]|]; simpl.
+    + destruct (absorbed (F 0 k o) s).
+      * rewrite (apply_tx_only s c p Hs). right. apply exec_tx_only_none. exact Hr.
+      * destruct Hs as [Hu _]. rewrite Hu. left. reflexivity.
     + rewrite (apply_tx_only s c p Hs). apply IH. exact Hr.
     + rewrite (apply_tx_only s c p Hs). apply IH. exact Hr.
 Qed.
 
 Definition ins_profile_stmts (l : list (ukey * N)) : list stmt :=
-  flat_map (fun e => [s_next; mk_stmt InTx (AInsProfile (fst e) (snd e)) false]) l.
+  flat_map (fun e => [s_next; s_ins_profile e]) l.
 Definition ins_signed_stmts (l : list (skey * srow)) : list stmt :=
-  flat_map (fun e => [s_next; mk_stmt InTx (AInsSigned (fst e) (snd e)) false]) l.
+  flat_map (fun e => [s_next; s_ins_signed e]) l.
 
 Lemma fold_ins_profiles l : forall p,
   fold_left tx_eff (ins_profile_stmts l) p = set_profiles p (ins_all ukey_eqb l (profiles p)).
@@ -209,7 +213,7 @@ Proof.
 Qed.
 
 Definition sync_body (src : db) (now : Z) : list stmt :=
-  [q_src; q_src; s_begin; mk_stmt InTx ADelProfiles false; mk_stmt InTx ADelSigned false; s_prepare]
+  [q_src; q_src; s_begin; s_del_profiles; s_del_signed; s_prepare]
   ++ (ins_profile_stmts (profiles src) ++ [s_next]) ++ [s_prepare]
   ++ (ins_signed_stmts (live_signed src now) ++ [s_next]).
 
@@ -219,7 +223,7 @@ Proof.
   rewrite <- !app_assoc. reflexivity.
 Qed.
 
-Lemma tx_only_simple p a : p <> OnPool -> a <> ACommit -> tx_only (mk_stmt p a false).
+Lemma tx_only_simple p a r : p <> OnPool -> a <> ACommit -> tx_only (mk_stmt p a false r).
 Proof. intros H1 H2. repeat split; assumption. Qed.
 
 Lemma sync_body_tx_only src now : Forall tx_only (sync_body src now).
@@ -343,6 +347,18 @@ Proof.
     + apply wf_with_cache; [apply cleanup_wf; apply Hwf|]. apply wf_with_primary; [apply cleanup_wf; apply Hwf|exact Hwf].
     + apply wf_with_cache; [apply cleanup_wf; apply Hwf|exact Hwf].
   - (* SetMode *) exact Hwf.
+  - (* Restart *) cbn [fst]. apply wf_with_cache; [apply Hwf|exact Hwf].
+  - (* Copier *)
+    assert (forall s0 x, wf s0 -> wf (fst (let s1 := if writable s0 then with_primary s0 (cleanup (now s0) (primary s0)) else s0 in
+                                           (with_cache s1 (cleanup (now s0) (cache s1)), x : out)))) as Hc.
+    { intros s0 x H0. cbn [fst]. destruct (writable s0).
+      - apply wf_with_cache; [apply cleanup_wf; apply H0|]. apply wf_with_primary; [apply cleanup_wf; apply H0|exact H0].
+      - apply wf_with_cache; [apply cleanup_wf; apply H0|exact H0]. }
+    destruct (writable s) eqn:W.
+    + destruct (sync_any (primary s) (now s) f (cache s)) as [H|H]; rewrite H; apply Hc.
+      * apply wf_with_cache; [apply Hwf|exact Hwf].
+      * apply wf_with_cache; [apply mirror_of_wf|exact Hwf].
+    + apply Hc. exact Hwf.
   - (* Load *) destruct (read_source reports_none (pmode s)); try exact Hwf; destruct (load s u) as [[a b] c]; exact Hwf.
   - (* GetS *) destruct (read_source reports_none (pmode s)); try exact Hwf; destruct (get_signed s u t); exact Hwf.
   - (* Users *) destruct (read_source reports_none (pmode s)); exact Hwf.
@@ -458,10 +474,11 @@ Qed.
 (* with the primary truly unreachable nothing changes anywhere, whatever is attempted
    (Cleanup still purges expired rows of the local cache) *)
 Lemma dead_frozen s o : writable s = false -> (forall m, o <> SetMode m) ->
-  primary (fst (step s o)) = primary s /\ (o <> Cleanup -> cache (fst (step s o)) = cache s).
+  primary (fst (step s o)) = primary s /\ (o <> Cleanup -> (forall f, o <> Copier f) -> cache (fst (step s o)) = cache s).
 Proof.
   intros M Hm. destruct o; unfold step, step_gen, handler; rewrite ?M; simpl; auto.
   - split; [reflexivity|congruence].
+  - split; [reflexivity|]. intros _ H. exfalso. apply (H f). reflexivity.
   - destruct (read_source reports_none (pmode s)); auto; destruct (load s u) as [[a b] c]; auto.
   - destruct (read_source reports_none (pmode s)); auto; destruct (get_signed s u t); auto.
   - destruct (read_source reports_none (pmode s)); auto.
@@ -574,9 +591,9 @@ Definition old_cursor_history : list op := [Upsert 1 1 5 1000%Z; Upsert 2 1 6 10
 
 Lemma old_atomic_refuted_cursor :
   let s := fst (run_old false init old_cursor_history) in
-  let c := cache (fst (step_old false s (Sync (Some 9%nat)))) in
+  let c := cache (fst (step_old false s (Sync (Some (gen 9))))) in
   let cnew := cache (fst (step_old false s (Sync None))) in
-  snd (step_old false s (Sync (Some 9%nat))) = OSync true /\
+  snd (step_old false s (Sync (Some (gen 9)))) = OSync true /\
   same_db c (cache s) = false /\ same_db c cnew = false.
 Proof. vm_compute. repeat split; reflexivity. Qed.
 
@@ -585,9 +602,9 @@ Definition old_eager_history : list op := [Save 1 10; Upsert 1 1 5 1000%Z; Sync 
 
 Lemma old_atomic_refuted_eager :
   let s := fst (run_old true init old_eager_history) in
-  let c := cache (fst (step_old true s (Sync (Some 6%nat)))) in
+  let c := cache (fst (step_old true s (Sync (Some (gen 6))))) in
   let cnew := cache (fst (step_old true s (Sync None))) in
-  snd (step_old true s (Sync (Some 6%nat))) = OSync false /\
+  snd (step_old true s (Sync (Some (gen 6)))) = OSync false /\
   same_db c (cache s) = false /\ same_db c cnew = false.
 Proof. vm_compute. repeat split; reflexivity. Qed.
 
@@ -635,4 +652,224 @@ Proof.
   destruct (aget skey_eqb (u, t) (signed (if mode_eqb (pmode s) Up then primary s else cache s))) as [r|]; [|discriminate].
   unfold unexpired. destruct (now s <? sr_exp r) eqn:E; [|discriminate].
   intro H. inversion H. exists r. repeat split. apply Z.ltb_lt. exact E.
+Qed.
+
+(* ------------------------------------------------------------------ kinds of faults; restarts *)
+
+(* a synchronisation that reports success — whatever failed on the way, in whichever way — left the
+   content of the completed copy *)
+Lemma sync_success_is_new s f :
+  snd (step s (Sync f)) = OSync true ->
+  cache (fst (step s (Sync f))) = cache (fst (step s (Sync None))).
+Proof.
+  unfold step, step_gen. destruct (writable s); [|discriminate].
+  rewrite sync_none. destruct (sync_any (primary s) (now s) f (cache s)) as [H|H]; rewrite H; simpl; [discriminate|reflexivity].
+Qed.
+
+(* a failed one reports failure and keeps the previous content *)
+Lemma sync_failure_is_old s f :
+  snd (step s (Sync f)) = OSync false -> cache (fst (step s (Sync f))) = cache s.
+Proof.
+  unfold step, step_gen. destruct (writable s); [|reflexivity].
+  destruct (sync_any (primary s) (now s) f (cache s)) as [H|H]; rewrite H; simpl; [reflexivity|discriminate].
+Qed.
+
+Local Open Scope N_scope.
+(* the variant that writes the transaction again after SQLITE_BUSY / SQLITE_LOCKED with the source
+   cursors already consumed: a transient busy error at the second insert commits a cache without the
+   first two users and reports success; at the COMMIT it commits an EMPTY cache and reports success.
+   The code keeps the previous cache and reports the failure, for the same faults. *)
+Definition retry_history : list op := [Save 1 10; Sync None; Save 1 11; Save 2 20; Save 3 30; Upsert 1 1 5 1000%Z].
+
+Lemma retrying_refuted :
+  let s := fst (run init retry_history) in
+  let cnew := cache (fst (step s (Sync None))) in
+  (* F 9: stmt.Exec of the second profile row; F 17: the COMMIT (script length 18) *)
+  length (sync_script (primary s) (now s)) = 18%nat /\
+  forallb (fun k =>
+    forallb (fun at_ =>
+      let f := Some (F at_ k true) in
+      out_eqb (snd (step_retrying s (Sync f))) (OSync true) &&
+      negb (same_db (cache (fst (step_retrying s (Sync f)))) (cache s)) &&
+      negb (same_db (cache (fst (step_retrying s (Sync f)))) cnew) &&
+      out_eqb (snd (step s (Sync f))) (OSync false) &&
+      same_db (cache (fst (step s (Sync f)))) (cache s)) [9%nat; 17%nat]) [KBusy; KLocked] = true /\
+  profiles (cache (fst (step_retrying s (Sync (Some (F 17 KBusy true)))))) = [] /\
+  map fst (profiles (cache (fst (step_retrying s (Sync (Some (F 9 KBusy true))))))) = [1] /\
+  (* a standing busy condition makes every attempt fail: old content, failure reported *)
+  snd (step_retrying s (Sync (Some (F 9 KBusy false)))) = OSync false.
+Proof. vm_compute. repeat split; reflexivity. Qed.
+
+(* a transient bad connection on a call that database/sql repeats is not seen by the copy; a standing
+   one, or one on a call that is not repeated, fails it *)
+Lemma badconn_examples :
+  let s := fst (run init retry_history) in
+  map (fun f => snd (step s (Sync (Some f))))
+      [F 0 KBadConn true; F 2 KBadConn true; F 7 KBadConn true; F 0 KBadConn false; F 3 KBadConn true; F 6 KBadConn true; F 17 KBadConn true]
+  = [OSync true; OSync true; OSync true; OSync false; OSync false; OSync false; OSync false].
+Proof. vm_compute. reflexivity. Qed.
+Local Close Scope N_scope.
+
+(* a restart changes nothing that is on disk *)
+Lemma restart_keeps s :
+  snd (step s Restart) = OOk /\
+  primary (fst (step s Restart)) = primary s /\ cache (fst (step s Restart)) = cache s /\
+  now (fst (step s Restart)) = now s /\ pmode (fst (step s Restart)) = pmode s.
+Proof. repeat split. Qed.
+
+(* operations that leave the cache alone and do not end an outage: everything except a copy (alone or as a
+   turn of the copier), the purge, the write-through of signed records and the primary coming back *)
+Definition cache_quiet (o : op) : Prop :=
+  match o with
+  | Sync _ | Copier _ | Cleanup | Upsert _ _ _ _ | DelSigned _ _ | SetMode Up => False
+  | _ => True
+  end.
+
+Lemma cache_quiet_step s o : cache_quiet o -> pmode s <> Up ->
+  cache (fst (step s o)) = cache s /\ pmode (fst (step s o)) <> Up.
+Proof.
+  intros Hq Hm. destruct o; simpl in Hq; try contradiction; unfold step, step_gen; cbn [fst].
+  - destruct (writable s); split; auto.
+  - destruct (writable s); split; auto.
+  - split; auto.
+  - destruct m; [contradiction|]. split; [reflexivity|discriminate].
+  - split; auto.
+  - destruct (read_source reports_none (pmode s)); [destruct (load s u) as [[a b] c]..|]; split; auto.
+  - destruct (read_source reports_none (pmode s)); [destruct (get_signed s u t)..|]; split; auto.
+  - destruct (read_source reports_none (pmode s)); split; auto.
+  - pose proof (outage_writes s h u b Hm) as P. unfold step, step_gen in P.
+    destruct (handler true reports_none s h u b) as [s' o] eqn:E. destruct P as [A _]. cbn [fst]. split; [exact A|].
+    revert E. unfold handler, load, save, with_primary.
+    destruct h; destruct (writable s); destruct (read_source reports_none (pmode s));
+      destruct (negb (mode_eqb (pmode s) Up)); try destruct (aget ukey_eqb u (profiles (cache s)));
+      try destruct (aget ukey_eqb u (profiles (primary s))); simpl; intro E; inversion E; subst; simpl; exact Hm.
+Qed.
+
+Lemma cache_quiet_run tail : Forall cache_quiet tail -> forall s, pmode s <> Up ->
+  cache (fst (run s tail)) = cache s /\ pmode (fst (run s tail)) <> Up.
+Proof.
+  induction tail as [|o r IH]; intros H s Hm; [split; [reflexivity|exact Hm]|].
+  inversion H as [|x l Ho Hr]; subst.
+  destruct (cache_quiet_step s o Ho Hm) as [A B].
+  unfold run in *. simpl. destruct (step s o) as [s1 x] eqn:E. simpl in A, B.
+  specialize (IH Hr s1 B). destruct (run_gen step s1 r) as [s2 xs]. simpl in *. rewrite <- A. exact IH.
+Qed.
+
+Lemma run_cons_fst s o r : fst (run s (o :: r)) = fst (run (fst (step s o)) r).
+Proof. unfold run. simpl. destruct (step s o) as [s1 x]. simpl. destruct (run_gen step s1 r) as [s2 xs]. reflexivity. Qed.
+
+(* after a completed copy and the primary going out (in whichever way), whatever follows that leaves the
+   cache alone — restarts of the daemon, reads, refused or served requests, further changes of the kind
+   of outage — every load is still answered from the cache with what the primary held at the copy *)
+Lemma restart_outage_reads ops f s' k w tail u :
+  step (final ops) (Sync f) = (s', OSync true) -> Forall cache_quiet tail ->
+  snd (step (fst (run s' (SetMode (Out k w) :: tail))) (Load u)) =
+  match aget ukey_eqb u (profiles (primary (final ops))) with
+  | Some b => OLoad true true b
+  | None => OLoad false true 0%N
+  end.
+Proof.
+  intros Hs Hq. destruct (sync_mirror ops f s' Hs) as [[Hmp _] Hprim].
+  rewrite run_cons_fst.
+  change (fst (step s' (SetMode (Out k w)))) with (mk_state (primary s') (cache s') (now s') (Out k w)).
+  set (s1 := mk_state (primary s') (cache s') (now s') (Out k w)).
+  assert (pmode s1 <> Up) as Hm by discriminate.
+  destruct (cache_quiet_run tail Hq s1 Hm) as [A B].
+  rewrite outage_reads by exact B. cbn [snd]. rewrite A. subst s1. cbn [cache]. rewrite Hmp, Hprim. reflexivity.
+Qed.
+
+Local Open Scope N_scope.
+(* a start-up that recreates the cache file loses what the previous process served from it *)
+Lemma wiping_refuted : forall k w,
+  let h := [Save 1 10; Upsert 1 1 5 1000%Z; Sync None; SetMode (Out k w); Restart] in
+  snd (step_wiping (fst (run_gen step_wiping init h)) (Load 1)) = OLoad false true 0 /\
+  snd (step_wiping (fst (run_gen step_wiping init h)) Users) = OUsers true [] /\
+  snd (step_wiping (fst (run_gen step_wiping init h)) (Handler HAuthSave 1 12)) = ORefused /\
+  snd (step (fst (run init h)) (Load 1)) = OLoad true true 10 /\
+  snd (step (fst (run init h)) Users) = OUsers true [1] /\
+  snd (step (fst (run init h)) (Handler HAuthSave 1 12)) = OServed.
+Proof. intros [] []; vm_compute; repeat split; reflexivity. Qed.
+Local Close Scope N_scope.
+
+(* ------------------------------------------------------------------ the background copier *)
+(* one turn of the copier is the copy followed by the purge *)
+Lemma step_copier s f :
+  step s (Copier f) = (fst (step (fst (step s (Sync f))) Cleanup), snd (step s (Sync f))).
+Proof.
+  unfold step, step_gen. destruct (writable s) eqn:W.
+  - destruct (sync (primary s) (now s) f (cache s)) as [c ok]. cbn [fst snd]. reflexivity.
+  - cbn [fst snd]. reflexivity.
+Qed.
+
+Lemma handler_cache s h u b : cache (fst (handler true reports_none s h u b)) = cache s.
+Proof.
+  unfold handler.
+  destruct h; [destruct (read_source reports_none (pmode s)); [| |reflexivity]..|].
+  - destruct (load s u) as [[fd fc] cur]. destruct fc; [reflexivity|]. destruct (writable s); reflexivity.
+  - destruct (load s u) as [[fd fc] cur]. destruct fc; [reflexivity|]. destruct (writable s); reflexivity.
+  - destruct (load s u) as [[fd fc] cur]. destruct fd; [|reflexivity]. destruct fc; [reflexivity|]. destruct (writable s); reflexivity.
+  - destruct (load s u) as [[fd fc] cur]. destruct fd; [|reflexivity]. destruct fc; [reflexivity|]. destruct (writable s); reflexivity.
+  - reflexivity.
+  - reflexivity.
+  - destruct (writable s); reflexivity.
+Qed.
+
+(* the user profiles in the cache change only when a copy completes *)
+Lemma step_cache_profiles s o : completes o (snd (step s o)) = false ->
+  profiles (cache (fst (step s o))) = profiles (cache s).
+Proof.
+  destruct o; intro H;
+    try solve [unfold step, step_gen; cbn [fst]; first [destruct (writable s); reflexivity | reflexivity]].
+  - unfold step, step_gen in *. destruct (writable s); [|reflexivity].
+    destruct (sync_any (primary s) (now s) f (cache s)) as [E|E]; rewrite E in *; simpl in *; [reflexivity|discriminate].
+  - rewrite step_copier in *. cbn [fst snd] in *.
+    assert (profiles (cache (fst (step s (Sync f)))) = profiles (cache s)) as A.
+    { unfold step, step_gen in *. destruct (writable s); [|reflexivity].
+      destruct (sync_any (primary s) (now s) f (cache s)) as [E|E]; rewrite E in *; simpl in *; [reflexivity|discriminate]. }
+    rewrite <- A. unfold step at 1, step_gen. cbn [fst]. destruct (writable (fst (step s (Sync f)))); reflexivity.
+  - unfold step, step_gen. destruct (read_source reports_none (pmode s)); [destruct (load s u) as [[a b] c]..|]; reflexivity.
+  - unfold step, step_gen. destruct (read_source reports_none (pmode s)); [destruct (get_signed s u t)..|]; reflexivity.
+  - unfold step, step_gen. destruct (read_source reports_none (pmode s)); reflexivity.
+  - unfold step, step_gen. rewrite handler_cache. reflexivity.
+Qed.
+
+(* ... and then they are the primary's *)
+Lemma step_completes_profiles s o u : wf s -> completes o (snd (step s o)) = true ->
+  aget ukey_eqb u (profiles (cache (fst (step s o)))) = aget ukey_eqb u (profiles (primary s)).
+Proof.
+  intros [Hp _] H.
+  assert (forall f, snd (step s (Sync f)) = OSync true ->
+                    aget ukey_eqb u (profiles (cache (fst (step s (Sync f))))) = aget ukey_eqb u (profiles (primary s))) as A.
+  { intros f. unfold step, step_gen. destruct (writable s); [|discriminate].
+    destruct (sync_any (primary s) (now s) f (cache s)) as [E|E]; rewrite E; simpl; [discriminate|]. intros _.
+    destruct (mirror_of_mirrors (primary s) (now s) Hp) as [M _]. apply M. }
+  destruct o; cbn [completes] in H; try discriminate H.
+  - apply A. destruct (snd (step s (Sync f))) as [| | | | |[]| |]; try discriminate H. reflexivity.
+  - rewrite step_copier in *. cbn [fst snd] in *.
+    assert (snd (step s (Sync f)) = OSync true) as B by (destruct (snd (step s (Sync f))) as [| | | | |[]| |]; try discriminate H; reflexivity).
+    rewrite <- (A f B). unfold step at 1, step_gen. cbn [fst]. destruct (writable (fst (step s (Sync f)))); reflexivity.
+Qed.
+
+(* the cache is never more than one completed copy behind: at every moment of every history its user
+   profiles are those the primary held when the last copy completed (none before the first) *)
+Lemma ghost_inv ops : forall s g, wf s -> (forall u, aget ukey_eqb u (profiles (cache s)) = aget ukey_eqb u g) ->
+  forall u, aget ukey_eqb u (profiles (cache (fst (run_ghost s g ops)))) = aget ukey_eqb u (snd (run_ghost s g ops)).
+Proof.
+  induction ops as [|o r IH]; intros s g Hwf Hg u; [apply Hg|].
+  simpl. pose proof (step_wf s o Hwf) as Hwf1.
+  destruct (step s o) as [s1 x] eqn:E. simpl in Hwf1.
+  apply IH; [exact Hwf1|]. intro v.
+  destruct (completes o x) eqn:C.
+  - pose proof (step_completes_profiles s o v Hwf) as P. rewrite E in P. apply P. exact C.
+  - pose proof (step_cache_profiles s o) as P. rewrite E in P. simpl in P. rewrite (P C). apply Hg.
+Qed.
+
+Lemma copier_lag ops u :
+  aget ukey_eqb u (profiles (cache (fst (run_ghost init [] ops)))) = aget ukey_eqb u (snd (run_ghost init [] ops)).
+Proof. apply ghost_inv; [apply init_wf|reflexivity]. Qed.
+
+Lemma run_ghost_final ops : forall s g, fst (run_ghost s g ops) = fst (run s ops).
+Proof.
+  induction ops as [|o r IH]; intros s g; [reflexivity|].
+  rewrite run_cons_fst. simpl. destruct (step s o) as [s1 x]. apply IH.
 Qed.
